@@ -26,6 +26,13 @@ class DBSchema(object):
         if schema.uppercase: return s.upper().replace('%S', '%s') \
             .replace(')S', ')s').replace('%R', '%r').replace(')R', ')r')
         else: return s.lower()
+    def check_name_length(schema, typename, name):
+        # default names are cut by provider.normalize_name(), names specified explicitly are used as is
+        max_len = schema.provider.max_name_len
+        for part in (name,) if isinstance(name, str) else name:
+            if len(part) > max_len: throw(DBSchemaError,
+                '%s name %r is too long: it has %d characters, the maximum name length for the database is %d'
+                % (typename, part, len(part), max_len))
     def add_table(schema, table_name, entity=None):
         return schema.table_class(table_name, schema, entity)
     def order_tables_to_create(schema):
@@ -91,6 +98,7 @@ class Table(DBObject):
             throw(DBSchemaError, "Table %r already exists in database schema" % name)
         if name in schema.names:
             throw(DBSchemaError, "Table %r cannot be created, name is already in use" % name)
+        schema.check_name_length(table.typename, name)
         schema.tables[name] = table
         schema.names[name] = table
         table.schema = schema
@@ -210,6 +218,7 @@ class Column(object):
     def __init__(column, name, table, sql_type, converter, is_not_null=None, sql_default=None):
         if name in table.column_dict:
             throw(DBSchemaError, "Column %r already exists in table %r" % (name, table.name))
+        table.schema.check_name_length('Column', name)
         table.column_dict[name] = column
         table.column_list.append(column)
         column.table = table
@@ -266,6 +275,7 @@ class Constraint(DBObject):
             assert name not in schema.names
             if name in schema.constraints: throw(DBSchemaError,
                 "Constraint with name %r already exists" % name)
+            schema.check_name_length(constraint.typename, name)
             schema.names[name] = constraint
             schema.constraints[name] = constraint
         constraint.schema = schema
